@@ -716,9 +716,17 @@ impl Blockchain {
     }
 
     fn remove_block_transactions(&self, block_hash: &SaitoHash, mempool: &mut Mempool) {
-        mempool
-            .transactions
-            .retain(|_, tx| tx.validate_against_utxoset(&self.utxoset));
+        // a pooled transaction whose inputs have meanwhile fallen out of the genesis period can
+        // never be included again (Transaction::validate refuses it). keeping it would make the
+        // next block we bundle invalid
+        let next_block_id = self.get_latest_block_id() + 1;
+        let genesis_period = self.genesis_period;
+        mempool.transactions.retain(|_, tx| {
+            tx.validate_against_utxoset(&self.utxoset)
+                && !tx.from.iter().any(|slip| {
+                    slip.amount > 0 && slip.block_id.saturating_add(genesis_period) < next_block_id
+                })
+        });
         let block = self.get_block(block_hash).unwrap();
         // we call delete_tx after removing invalidated txs, to make sure routing work is calculated after removing all the txs
         mempool.delete_transactions(&block.transactions);
